@@ -54,7 +54,33 @@ func stripConv(v ssa.Value) ssa.Value {
 
 // isLoadOf reports whether v is a load of struct field f (any base).
 func isLoadOf(v ssa.Value, f *types.Var) bool {
-	return f != nil && loadedField(unspill(v)) == f
+	return f != nil && loadedField(unspill(v)) == f && !loadsFromGlobal(unspill(v))
+}
+
+// loadsFromGlobal: v is a load whose address chain is rooted at a package
+// variable (DefaultTunnelConfig.UseTCP is not conn.config.UseTCP).
+func loadsFromGlobal(v ssa.Value) bool {
+	for i := 0; i < 8; i++ {
+		switch x := v.(type) {
+		case *ssa.UnOp:
+			v = x.X
+		case *ssa.FieldAddr:
+			v = x.X
+		case *ssa.IndexAddr:
+			v = x.X
+		case *ssa.ChangeType:
+			v = x.X
+		case *ssa.Convert:
+			v = x.X
+		case *ssa.Field:
+			v = x.X
+		case *ssa.Global:
+			return true
+		default:
+			return false
+		}
+	}
+	return false
 }
 
 // resolveFree follows a free variable to the value bound at its single
@@ -1144,4 +1170,59 @@ func reachUntil(s, stop *ssa.BasicBlock) map[*ssa.BasicBlock]bool {
 		return map[*ssa.BasicBlock]bool{}
 	}
 	return reachableFrom(s, func(from, to *ssa.BasicBlock) bool { return to == stop })
+}
+
+// checkNoLockCopies: a structure that holds a mutex, a Once or a WaitGroup by
+// value is only ever used through a pointer - no method with a value
+// receiver, no load of the whole structure, no parameter or result of the
+// structure type.  A copy has its own lock: what the copy's holder excludes
+// is not what the original's holder excludes.
+func checkNoLockCopies(c *Check, p *Program, rule string, rel, typeName string) {
+	nt := p.Named(rel, typeName)
+	if nt == nil {
+		c.Fail(rule, rel+"."+typeName, "", "type not found")
+		return
+	}
+	st, ok := nt.Underlying().(*types.Struct)
+	if !ok {
+		return
+	}
+	hasLock := false
+	for i := 0; i < st.NumFields(); i++ {
+		if n := namedOf(st.Field(i).Type()); n != nil && n.Obj().Pkg() != nil && n.Obj().Pkg().Path() == "sync" {
+			if _, isPtr := st.Field(i).Type().(*types.Pointer); !isPtr {
+				hasLock = true
+			}
+		}
+	}
+	if !hasLock {
+		c.Fail(rule, typeName+" holds its locks by value", p.Pos(nt.Obj().Pos()), "no sync field found in the structure: the lock rules of this check have lost their anchor")
+		return
+	}
+	bad := ""
+	for i := 0; i < nt.NumMethods(); i++ {
+		m := nt.Method(i)
+		if sig, ok := m.Type().(*types.Signature); ok && sig.Recv() != nil {
+			if _, isPtr := sig.Recv().Type().(*types.Pointer); !isPtr {
+				bad = "method " + m.Name() + " has a value receiver: every call works on a copy of the structure with its own lock"
+			}
+		}
+	}
+	isT := func(t types.Type) bool { return types.Identical(t, nt) }
+	for _, fn := range p.AllFuncs {
+		if fn.Pkg == nil || !p.InModule(fn) || fn.Synthetic != "" {
+			continue
+		}
+		for _, prm := range fn.Params {
+			if isT(prm.Type()) && bad == "" {
+				bad = FuncName(fn) + " takes a " + typeName + " by value"
+			}
+		}
+		instrsOf(fn, func(in ssa.Instruction) {
+			if u, ok := in.(*ssa.UnOp); ok && u.Op == token.MUL && isT(u.Type()) && bad == "" {
+				bad = "the whole structure is copied at " + p.InstrPos(u)
+			}
+		})
+	}
+	c.Decide(bad == "", rule, typeName+" is never copied (it holds locks by value)", p.Pos(nt.Obj().Pos()), "pointer receivers only, no by-value parameter, no load of the whole structure", bad)
 }
